@@ -40,6 +40,11 @@ func New(ctx context.Context, opts ...Option) (*Filesystem, error) {
 		if strings.HasPrefix(fs.base, "..") {
 			return nil, fmt.Errorf("invalid base path for filesystem: %s", orig)
 		}
+		// The base is the directory the name denotes now, not wherever a
+		// later change of the working directory would make it point to
+		if abs, err := filepath.Abs(fs.base); err == nil {
+			fs.base = abs
+		}
 	}
 	return fs, nil
 }
